@@ -97,6 +97,7 @@ func checkEqualityTables(r *Run, prog *Program, a *Anchors, pfx string) {
 				st.eqc[paramSym(a.CoerceTab.Params[1]).Key()] = kindConst(kk).Key()
 				assume(st, &Sym{K: sCmp, Op: token.EQL, A: loadField(pe, "Value"), B: nilSym()}, false)
 			}
+			ps.Inline = func(c *ssa.Function) bool { return prog.InModule(c) && !isCoercion(c) }
 			for _, sm := range ps.Run(a.CoerceTab) {
 				for _, ev := range sm.Events() {
 					if ev.Instr != nil && ev.Callee == cf {
@@ -105,7 +106,7 @@ func checkEqualityTables(r *Run, prog *Program, a *Anchors, pfx string) {
 						}
 					}
 				}
-				if len(sm.Results) == 2 && !(sm.Results[0].K == sRes && sm.Results[1].K == sRes && sm.Results[0].A == sm.Results[1].A) {
+				if len(sm.Results) == 2 && !(sm.Results[0].K == sRes && sm.Results[1].K == sRes && sm.Results[0].A.Key() == sm.Results[1].A.Key()) {
 					probs = append(probs, "the coercion table does not return the coercion's (value, error) pair unchanged")
 				}
 			}
@@ -177,58 +178,75 @@ func comparatorBody(f *ssa.Function, spec coerceSpec) []string {
 	return probs
 }
 
-// coercionBody: exactly one call, to the expected strconv function with the expected constant parameters, on the
-// function's own parameter; value and error returned from that call (the value through at most a same-width conversion).
+// coercionBody: on every path exactly one call outside the module, to the expected strconv function with the expected
+// constant parameters, on the function's own parameter; the value (through at most a same-class conversion) and the
+// error of that call are what is returned. Helpers of the module (a boxing helper, …) are interpreted in place.
 func coercionBody(prog *Program, cf *ssa.Function, spec coerceSpec) []string {
 	var probs []string
-	ncall := 0
-	for _, b := range cf.Blocks {
-		for _, ins := range b.Instrs {
-			switch x := ins.(type) {
-			case *ssa.Call:
-				ncall++
-				callee := x.Call.StaticCallee()
-				if callee == nil || callee.Pkg == nil || callee.Pkg.Pkg.Path() != "strconv" || callee.Name() != spec.parse {
-					probs = append(probs, fmt.Sprintf("%s calls %s; the literal of this kind must be read by strconv.%s only", cf.Name(), callName(x.Common()), spec.parse))
-					continue
+	ps := NewPathSim(prog)
+	ps.Inline = func(c *ssa.Function) bool { return prog.InModule(c) }
+	sums := ps.Run(cf)
+	if len(sums) != 1 {
+		probs = append(probs, fmt.Sprintf("%s branches (%d paths): a literal must be valid or invalid by strconv's verdict alone", cf.Name(), len(sums)))
+	}
+	pv := paramSym(cf.Params[0]).Key()
+	for _, sm := range sums {
+		var call *Event
+		ncall := 0
+		for _, ev := range sm.Events() {
+			ev := ev
+			if ev.Instr == nil || ev.Inlined {
+				continue
+			}
+			ncall++
+			callee := ev.Callee
+			if callee == nil || callee.Pkg == nil || callee.Pkg.Pkg.Path() != "strconv" || callee.Name() != spec.parse {
+				probs = append(probs, fmt.Sprintf("%s calls %s; the literal of this kind must be read by strconv.%s only", cf.Name(), callName(ev.Instr.Common()), spec.parse))
+				continue
+			}
+			call = &ev
+			if len(ev.Args) != 1+len(spec.args) || ev.Args[0].Key() != pv {
+				probs = append(probs, cf.Name()+" does not hand its parameter unmodified to strconv."+spec.parse)
+				continue
+			}
+			for i, want := range spec.args {
+				var got int64 = -1
+				c := ev.Args[1+i]
+				if c.K == sConst && c.C != nil {
+					got, _ = constant.Int64Val(c.C)
 				}
-				if len(x.Call.Args) != 1+len(spec.args) || x.Call.Args[0] != ssa.Value(cf.Params[0]) {
-					probs = append(probs, cf.Name()+" does not hand its parameter unmodified to strconv."+spec.parse)
-					continue
-				}
-				for i, want := range spec.args {
-					c, ok := x.Call.Args[1+i].(*ssa.Const)
-					var got int64 = -1
-					if ok && c.Value != nil {
-						got, _ = constant.Int64Val(c.Value)
-					}
-					if !ok || got != want {
-						probs = append(probs, fmt.Sprintf("strconv.%s is called with %v as parameter %d, expected %d (base 0 / 64 bit for integers; the field's width for floats)", spec.parse, x.Call.Args[1+i], i+1, want))
-					}
-				}
-			case *ssa.If:
-				probs = append(probs, cf.Name()+" branches: a literal must be valid or invalid by strconv's verdict alone")
-			case *ssa.Convert:
-				from, _ := x.X.Type().Underlying().(*types.Basic)
-				to, _ := x.Type().Underlying().(*types.Basic)
-				if from != nil && to != nil {
-					fi, ti := from.Info(), to.Info()
-					if (fi&types.IsInteger != 0) != (ti&types.IsInteger != 0) {
-						probs = append(probs, fmt.Sprintf("%s converts between integer and floating point (%s → %s)", cf.Name(), from, to))
-					}
-				}
-			case *ssa.Return:
-				if len(x.Results) == 2 {
-					ex, ok := x.Results[1].(*ssa.Extract)
-					if !ok || ex.Index != 1 {
-						probs = append(probs, cf.Name()+" does not return strconv's error unchanged")
-					}
+				if got != want {
+					probs = append(probs, fmt.Sprintf("strconv.%s is called with %s as parameter %d, expected %d (base 0 / 64 bit for integers; the field's width for floats)", spec.parse, c.Key(), i+1, want))
 				}
 			}
 		}
-	}
-	if ncall != 1 {
-		probs = append(probs, fmt.Sprintf("%s makes %d calls (expected exactly one, to strconv.%s)", cf.Name(), ncall, spec.parse))
+		if ncall != 1 {
+			probs = append(probs, fmt.Sprintf("%s makes %d calls (expected exactly one, to strconv.%s)", cf.Name(), ncall, spec.parse))
+		}
+		if call == nil || sm.Ret == nil || len(sm.Results) != 2 {
+			continue
+		}
+		if e := sm.Results[1]; !(e.K == sRes && e.Idx == 1 && e.A.Key() == call.Res.Key()) {
+			probs = append(probs, cf.Name()+" does not return strconv's error unchanged")
+		}
+		v := sm.Results[0]
+		if v.K == sMkIface {
+			v = v.A
+		}
+		for v != nil && v.K == sConvert {
+			from, _ := v.A.T.Underlying().(*types.Basic)
+			to, _ := v.T.Underlying().(*types.Basic)
+			if from != nil && to != nil {
+				fi, ti := from.Info(), to.Info()
+				if (fi&types.IsInteger != 0) != (ti&types.IsInteger != 0) {
+					probs = append(probs, fmt.Sprintf("%s converts between integer and floating point (%s → %s)", cf.Name(), from, to))
+				}
+			}
+			v = v.A
+		}
+		if v == nil || !(v.K == sRes && v.Idx == 0 && v.A.Key() == call.Res.Key()) {
+			probs = append(probs, cf.Name()+" does not return the value strconv parsed")
+		}
 	}
 	return probs
 }
